@@ -748,7 +748,7 @@ def run_replay(prop, path):
     scratch = Scratch(prop + "-replay")
     try:
         scratch.create()
-        problems = scratch.attach([hf])
+        problems = scratch.attach(with_required(list(files.values()), [hf]))
         if problems:
             log("INCONCLUSIVE: " + "; ".join(problems))
             return 2
